@@ -5,10 +5,10 @@
 (* zlib and zstandard are black boxes; they are AXIOMATISED here.          *)
 (*                                                                         *)
 (*  * The compressed stream ("wire") is a sequence of abstract units.      *)
-(*    A unit is an integer: H (-1) a piece of the header, T (-2) a piece   *)
-(*    of the trailer (the end-of-stream marker), k >= 0 a data unit that   *)
-(*    carries the next k symbols of the plain text (k = 0: block headers,  *)
-(*    padding).  Only two derived notions are used by the axioms:          *)
+(*    A unit is an integer: HDR (-1) a piece of the header, TRL (-2) a     *)
+(*    piece of the trailer (the end-of-stream marker), k >= 0 a data unit  *)
+(*    that carries the next k symbols of the plain text (k = 0: block      *)
+(*    headers, padding).  Only two derived notions are used by the axioms: *)
 (*        Know(w, p)  how many plain symbols the first p units carry,      *)
 (*        Len(w)      where the end-of-stream marker is complete,          *)
 (*    so a wire measured on the real libraries (one unit per byte, the     *)
@@ -74,8 +74,8 @@ VARIABLES text,     \* plain text accepted by compress() so far (concatenated)
 
 vars == <<text, nch, cpend, wire, cstate, pos, rel, eof, emitted, dstate, hist>>
 
-H == -1
-T == -2
+HDR == -1
+TRL == -2
 
 SeqsUpTo(S, n) == UNION {[1..m -> S] : m \in 0..n}
 
@@ -103,8 +103,8 @@ Units(m, z) ==   \* unit sequences carrying <= m symbols with <= z empty units
 RECURSIVE Zeros(_)
 Zeros(w) == IF w = <<>> THEN 0 ELSE (IF Head(w) = 0 THEN 1 ELSE 0) + Zeros(Tail(w))
 
-HeaderIfNeeded == IF wire = <<>> THEN [j \in 1..HdrLen |-> H] ELSE <<>>
-Trailer == [j \in 1..TrlLen |-> T]
+HeaderIfNeeded == IF wire = <<>> THEN [j \in 1..HdrLen |-> HDR] ELSE <<>>
+Trailer == [j \in 1..TrlLen |-> TRL]
 
 CompressChoices(pend) ==
     {<<>>} \cup {HeaderIfNeeded \o u : u \in Units(pend, MaxZero - Zeros(wire))}
@@ -201,9 +201,20 @@ Init ==
 CNextEnv == \E chunk \in SeqsUpTo(Sym, MaxTotal - Len(text)) :
                \E e \in CompressChoices(cpend + Len(chunk)) : CNext(chunk, e)
 CCompleteEnv == \E e \in FlushChoices(cpend) : CComplete(e)
-DNextEnv == \E n \in 0..MaxFeed : \E r \in rel..Len(text) : DNext(n, r)
+(* the branches of decompress() as separate environment actions (coverage) *)
+Skipped(n) == Wrapper = "guarded" /\ n = 0
+DFeedEnv ==         \* the library is called before eof
+    ~eof /\ \E n \in 0..MaxFeed : ~Skipped(n) /\ \E r \in rel..Len(text) : DNext(n, r)
+DFeedAfterEofEnv == \* the library is called after eof (empty chunk after the last byte)
+    eof /\ ~Skipped(0) /\ DNext(0, rel)
+DFeedGuardedEnv ==  \* Wrapper = "guarded": the empty chunk is not handed to the library
+    Skipped(0) /\ DNext(0, rel)
+DCompleteEofEnv   == eof /\ DComplete
+DCompleteNoEofEnv == ~eof /\ DComplete
 
-Next == CNextEnv \/ CCompleteEnv \/ DNextEnv \/ DComplete
+Next == \/ CNextEnv \/ CCompleteEnv
+        \/ DFeedEnv \/ DFeedAfterEofEnv \/ DFeedGuardedEnv
+        \/ DCompleteEofEnv \/ DCompleteNoEofEnv
 
 Spec == Init /\ [][Next]_vars
 
@@ -243,11 +254,11 @@ LibEofExact      == eof <=> (cstate = "completed" /\ pos = Len(wire))
 LibAllReleased   == (eof /\ ~WeakFlush) => rel = Len(text)
 WireCarriesText  == Total(wire) + cpend = Len(text)
 CompressTrailer  == TrlLen > 0 =>
-                      ((cstate = "completed") <=> (wire # <<>> /\ wire[Len(wire)] = T))
+                      ((cstate = "completed") <=> (wire # <<>> /\ wire[Len(wire)] = TRL))
 WireShape        == \A j \in 1..Len(wire) :
-                      /\ wire[j] = H => j <= HdrLen
-                      /\ (j <= HdrLen) => wire[j] = H
-                      /\ wire[j] = T => (cstate = "completed" /\ j > Len(wire) - TrlLen)
+                      /\ wire[j] = HDR => j <= HdrLen
+                      /\ (j <= HdrLen) => wire[j] = HDR
+                      /\ wire[j] = TRL => (cstate = "completed" /\ j > Len(wire) - TrlLen)
 
 -----------------------------------------------------------------------------
 (* behaviour generation *)
